@@ -26,6 +26,7 @@ kanirun.DIRS.update({
     "C13": ["map", "C07", "C13"],
     "C07": ["proto", "C07"],
     "C09": ["C10", "proto", "C09"],
+    "C14": ["C14"],
     "C15": ["proto", "C15"],
 })
 
